@@ -197,21 +197,42 @@ def run(rep, tier):
     # ---------------------------------------------------------------- R10.5
     uj = F.one(X + "UPDATE_JOBS")
     rep.analysed(uj)
+    from vsa.cases import decision_table
     fo = Fold(uj, record_calls=r"Job::UpdateFrom$").run()
     ev = [e for e in fo.events if e["kind"] == "call"]
     ok = False
-    got = "UpdateFrom not found"
+    got = "expected one UpdateFrom call, found %d" % len(ev)
+    thr = [" & ".join(guard_strs(fo, t)) for t in fo.throws]
     if len(ev) == 1:
-        gs = [x for x in guard_strs(fo, ev[0]["guards"]) if "loop" not in x]
-        got = str(gs)
-        m = re.match(r"^\(hasHost\((?P<e>.+)\)&&\(getHost\((?P=e)\)!=thisHost\)\)$", re.sub(r"\s", "", gs[-1])) if gs else None
         ext, intl = str(ev[0]["args"][0]).replace(" ", ""), str(ev[0]["obj"]).replace(" ", "")
-        ok = m is not None and m.group("e") == ext and "ext" in ext and "int" in intl and ext != intl
-        thr = [" & ".join(guard_strs(fo, t)) for t in fo.throws]
-        ok = ok and any("size(to) != size(from)" in t or "size(from) != size(to)" in t for t in thr) and \
-            any(re.search(r"getId\(.*int.*\) != getId\(.*ext.*\)|getId\(.*ext.*\) != getId\(.*int.*\)", t) for t in thr)
-    else:
-        thr = []
+        pn = [p_["name"] for p_ in uj.j["params"]]
+
+        def classify(lf):
+            s_ = str(lf).replace(" ", "")
+            if isinstance(lf, tuple) and len(lf) == 3 and lf[0] in ("==", "!="):
+                a_, b_ = str(lf[1]).replace(" ", ""), str(lf[2]).replace(" ", "")
+                if a_.startswith("size(") and b_.startswith("size("):
+                    return ("size-mismatch", lf[0] == "!=")
+                if a_.startswith("getId(") and b_.startswith("getId("):
+                    return ("id-mismatch", lf[0] == "!=")
+                if ("getHost(%s)" % ext in (a_, b_)) and (len(pn) > 2 and pn[2] in (a_, b_)):
+                    return ("other-host", lf[0] == "!=")
+                return None
+            if s_ == "hasHost(%s)" % ext:
+                return ("has-host", True)
+            return None
+        names, rows = decision_table(ev[0], classify, getattr(fo, "conds", {}))
+        ok = rows is not None and ext != intl
+        got = "the file's copy is %s, the process's copy %s" % (ext, intl)
+        for a_, happens in (rows or []):
+            want = a_.get("has-host", False) and a_.get("other-host", False) and not a_.get("size-mismatch", False) and not a_.get("id-mismatch", False)
+            if happens is None or happens != want:
+                ok = False
+                got = "for %s the process's copy is %s from the file" % (", ".join("%s=%s" % kv for kv in sorted(a_.items())), "undecided" if happens is None else ("overwritten" if happens else "not updated"))
+                break
+        need = {"has-host", "other-host", "size-mismatch", "id-mismatch"}
+        if ok and not need <= set(names):
+            ok, got = False, "the merge does not depend on %s" % sorted(need - set(names))
     rep.check(ok, "R10.5", "merge-rule", "job_int.UpdateFrom(job_ext) iff ext has a host different from this one; size/id mismatch throws",
               "UPDATE_JOBS merges under %s (throws: %s); results of other processes would be lost or own results overwritten" % (got, [t[-60:] for t in thr]), uj.loc(), sample=True)
 
